@@ -47,6 +47,15 @@ type c16RegP06b struct {
 type c16RegP07 struct {
 	A int `dialspflagshort:"ab"`
 }
+type c16RegP15a struct {
+	A int `dialspflagshort:"v"`
+	B int `dialspflagshort:"v"`
+}
+type c16RegP15b struct {
+	Log struct {
+		Level int `dialspflagshort:"l"`
+	} `dialsalias:"logging"`
+}
 type c16RegP08a struct {
 	NInt
 	B int
@@ -172,6 +181,8 @@ var c16RegCases = []c16RegCase{
 	{"P06", "struct{ A int `dials:\"-x\"` }, no arguments", "flag.NewSetWithArgs", "err", regFlag[c16RegP06a](nil, false)},
 	{"P06", "struct{ A int `dialsflag:\"a=b\"` }, no arguments", "flag.NewSetWithArgs", "err", regFlag[c16RegP06b](nil, false)},
 	{"P07", "struct{ A int `dialspflagshort:\"ab\"` }, no arguments", "pflag.NewSetWithArgs", "err", regFlag[c16RegP07](nil, true)},
+	{"P15", "struct{ A, B int `dialspflagshort:\"v\"` }, no arguments", "pflag.NewSetWithArgs", "err", regFlag[c16RegP15a](nil, true)},
+	{"P15", "struct{ Log struct{ Level int `dialspflagshort:\"l\"` } `dialsalias:\"logging\"` }, -l 3", "pflag.NewSetWithArgs", "err", regFlag[c16RegP15b]([]string{"-l", "3"}, true)},
 	{"P08", "struct{ NInt; B int } (embedded named scalar), yaml FlattenAnonymous, document `b: 1`", "decoder/yaml-flatten", "ok", regDecode[c16RegP08a](&yaml.Decoder{FlattenAnonymous: true}, "b: 1\n")},
 	{"P08", "struct{ time.Time }, chain text-unmarshaler + anonymous-flatten + string-cast, nothing filled", "transform.ReverseTranslate", "", func() error {
 		_, dt := regType[c16RegP08b]()
